@@ -79,6 +79,7 @@ type FuncExec struct {
 	frames     map[*ssa.Function]*frameSpec
 	invDepth   int
 	inGlobalInv bool
+	loopIter    map[*ssa.BasicBlock]*State
 	inlinedCons map[*Contract]bool
 	invSeen    map[int]bool
 	loopFrames map[*ssa.BasicBlock][]string
@@ -782,6 +783,10 @@ func (fx *FuncExec) enterLoop(fn *ssa.Function, l *Loop, reach *Term, st *State,
 			fx.addFact(hreach, t)
 		}
 	}
+	if fx.loopIter == nil {
+		fx.loopIter = map[*ssa.BasicBlock]*State{}
+	}
+	fx.loopIter[l.head] = h.Clone()
 	return hreach, h
 }
 
@@ -1062,6 +1067,14 @@ func (fx *FuncExec) backEdge(fn *ssa.Function, l *Loop, n *node, cond *Term, st 
 			continue
 		}
 		fx.addObl("inv-preserve", fmt.Sprintf("loop%d:%s%s", l.ordinal, c.Label, site), c.Expr+where, cond, t)
+	}
+	for _, c := range l.spec.Steps {
+		t, err := fx.evalClause(c, &cenv{fx: fx, fn: fn, st: st, old: fx.entryFor(fn), con: con, body: true, binds: map[string]Value{}, loopPre: fx.loopPre[l.head], loopIter: fx.loopIter[l.head], pos: l.pos, loopHead: l.head})
+		if err != nil {
+			fx.addObl("shape", "step:"+c.Label, err.Error(), cond, fx.ts.False())
+			continue
+		}
+		fx.addObl("inv-preserve", fmt.Sprintf("loop%d:step:%s%s", l.ordinal, c.Label, site), c.Expr+where, cond, t)
 	}
 	if d := l.spec.Decreases; d != nil {
 		// find the head state of the matching context
